@@ -103,7 +103,12 @@ func (d *Decoder) DecodeUint(data []byte) (uint64, error) {
 		if len(data) < 9 {
 			return 0, errors.New("not enough data for 8-byte U64")
 		}
-		return binary.LittleEndian.Uint64(data[1:9]), nil
+		x := binary.LittleEndian.Uint64(data[1:9])
+		// Validate encoding: the 9-byte form is minimal only for x >= 2^56
+		if x < (uint64(1) << 56) {
+			return 0, errors.New("invalid U64 encoding")
+		}
+		return x, nil
 	}
 
 	l := bits.LeadingZeros8(^prefix)
